@@ -288,19 +288,45 @@ def _gen_grid(rng, directions):
                 costs[v] = (rng.randint(4, 16) / 4.0) if dy else rng.randint(1, 5)
         if rng.random() < 0.3:
             costs = {k: float(v) for k, v in costs.items()}
+    forced = None
+    if rows >= 3 and cols >= 2 and rng.random() < 0.4:
+        # a barrier row between start and goal with a single gap: a wall (detour needed) or a band of
+        # expensive terrain (detour pays off only sometimes) -- greedy / overestimating searches go wrong here
+        wr = rng.randrange(1, rows - 1)
+        gap = rng.choice([0, cols - 1, rng.randrange(cols)])
+        band = rng.random() < 0.5
+        for c in range(cols):
+            grid[wr][c] = 2 if band else (1 if 1 in bset else 3)
+        grid[wr][gap] = 0
+        if band:
+            costs = dict(costs or {})
+            costs[2] = rng.choice([2, 3, 4, 5, 2.5])
+        far = cols - 1 - gap if gap in (0, cols - 1) else rng.randrange(cols)
+        a = (rng.randrange(0, wr), min(cols - 1, max(0, far + rng.choice([-1, 0, 0, 1]))))
+        b = (rng.randrange(wr + 1, rows), min(cols - 1, max(0, far + rng.choice([-1, 0, 0, 1]))))
+        for p in (a, b):
+            if grid[p[0]][p[1]] in bset:
+                grid[p[0]][p[1]] = 0
+        forced = (a, b) if rng.random() < 0.5 else (b, a)
+        if rng.random() < 0.3:  # transpose: barrier column
+            grid = [list(col) for col in zip(*grid)]
+            rows, cols = cols, rows
+            forced = tuple((p[1], p[0]) for p in forced)
     free = [(r, c) for r in range(rows) for c in range(cols) if grid[r][c] not in bset]
     if not free:
         grid[0][0] = 0
         free = [(0, 0)]
     start = rng.choice(free)
     r = rng.random()
-    if r < 0.08:
+    if forced:
+        start, goal = forced
+    elif r < 0.08:
         goal = start
     elif r < 0.2:
         goal = (rng.randrange(rows), rng.randrange(cols))  # possibly blocked
     else:
         goal = max((rng.choice(free) for _ in range(3)), key=lambda p: abs(p[0] - start[0]) + abs(p[1] - start[1]))
-    if rng.random() < 0.1 and goal != start:
+    if rng.random() < 0.1 and goal != start and not forced:
         # wall the goal off
         for dr in (-1, 0, 1):
             for dc in (-1, 0, 1):
@@ -317,7 +343,7 @@ def _gen_grid(rng, directions):
     }
 
 
-_shrink_budget = [1500]  # candidates per worker process: enough to minimise several witnesses, bounded under mass failure
+_shrink_budget = [400]  # candidates per worker process: enough to minimise several witnesses, bounded under mass failure
 
 
 def shrink(case):
